@@ -106,23 +106,50 @@ func guardOf(n *cfront.Node) string {
 
 // successNeedsMapCall: on every CFG path of f from entry to a `return …, nil` (success), a call of one of
 // methods on the *ebpf.Map field mapField is executed, unless the path took the `m.<mapField> == nil` branch.
+// A same-package helper that is handed the map and itself satisfies the rule for that parameter counts as the call.
 // Returns the position of an offending return.
 func successNeedsMapCall(c *Ctx, f *ssa.Function, mapField string, methods ...string) (bool, string) {
+	isField := func(v ssa.Value) bool {
+		u, ok := v.(*ssa.UnOp)
+		return ok && strings.HasSuffix(flow.FieldOwner(u.X), "."+mapField)
+	}
+	return mustCallOnSuccess(c, f, isField, methods, 0)
+}
+
+func mustCallOnSuccess(c *Ctx, f *ssa.Function, isMap func(ssa.Value) bool, methods []string, depth int) (bool, string) {
+	if f == nil || len(f.Blocks) == 0 || depth > 2 {
+		return false, "-"
+	}
 	isCall := func(in ssa.Instruction) bool {
 		call, ok := in.(ssa.CallInstruction)
 		if !ok {
 			return false
 		}
 		for _, m := range methods {
-			if flow.CalleeIs(call, "cilium/ebpf", "Map", m) {
-				if rv, ok := call.Common().Args[0].(*ssa.UnOp); ok && strings.HasSuffix(flow.FieldOwner(rv.X), "."+mapField) {
+			if flow.CalleeIs(call, "cilium/ebpf", "Map", m) && len(call.Common().Args) > 0 && isMap(call.Common().Args[0]) {
+				return true
+			}
+		}
+		// helper that receives the map (as receiver-less argument) and always makes the call
+		if g := call.Common().StaticCallee(); g != nil && g.Pkg == f.Pkg && g != f {
+			for i, a := range call.Common().Args {
+				if !isMap(a) || i >= len(g.Params) {
+					continue
+				}
+				p := g.Params[i]
+				if ok, _ := mustCallOnSuccess(c, g, func(v ssa.Value) bool { return v == p }, methods, depth+1); ok {
+					return true
+				}
+			}
+			// helper method of the same receiver that reads the field itself
+			if depth == 0 {
+				if ok, _ := mustCallOnSuccess(c, g, isMap, methods, depth+1); ok && helperTouches(g, isMap) {
 					return true
 				}
 			}
 		}
 		return false
 	}
-	// does the edge b->succ[i] establish that the map field is nil?
 	nilEdge := func(b *ssa.BasicBlock, i int) bool {
 		if len(b.Instrs) == 0 {
 			return false
@@ -132,11 +159,7 @@ func successNeedsMapCall(c *Ctx, f *ssa.Function, mapField string, methods ...st
 			return false
 		}
 		bo, ok := iff.Cond.(*ssa.BinOp)
-		if !ok {
-			return false
-		}
-		u, ok := bo.X.(*ssa.UnOp)
-		if !ok || !strings.HasSuffix(flow.FieldOwner(u.X), "."+mapField) {
+		if !ok || !isMap(bo.X) {
 			return false
 		}
 		k, ok := bo.Y.(*ssa.Const)
@@ -146,7 +169,7 @@ func successNeedsMapCall(c *Ctx, f *ssa.Function, mapField string, methods ...st
 		return (bo.Op == token.EQL && i == 0) || (bo.Op == token.NEQ && i == 1)
 	}
 	type key struct {
-		b         *ssa.BasicBlock
+		b          *ssa.BasicBlock
 		done, nil_ bool
 	}
 	seen := map[key]bool{}
@@ -165,6 +188,10 @@ func successNeedsMapCall(c *Ctx, f *ssa.Function, mapField string, methods ...st
 			if ret, ok := in.(*ssa.Return); ok {
 				n := len(ret.Results)
 				if n == 0 {
+					if !done && !isNil {
+						bad = c.P.Pos(instrPos(ret))
+						return false
+					}
 					return true
 				}
 				last := ret.Results[n-1]
@@ -184,9 +211,31 @@ func successNeedsMapCall(c *Ctx, f *ssa.Function, mapField string, methods ...st
 		}
 		return true
 	}
-	if f == nil || len(f.Blocks) == 0 {
-		return false, "-"
-	}
 	ok := walk(f.Blocks[0], false, false)
 	return ok, bad
+}
+
+// helperTouches: the function contains a use of the map value at all (otherwise "always calls" would be vacuous).
+func helperTouches(g *ssa.Function, isMap func(ssa.Value) bool) bool {
+	found := false
+	flow.Instrs(g, func(in ssa.Instruction) {
+		for _, op := range in.Operands(nil) {
+			if *op != nil && isMap(*op) {
+				found = true
+			}
+		}
+	})
+	return found
+}
+
+// isErrTest: the fact is a nil test of an error value.
+func isErrTest(ft flow.Fact) bool {
+	bo, ok := ft.Cond.(*ssa.BinOp)
+	if !ok {
+		return false
+	}
+	if k, ok := bo.Y.(*ssa.Const); !ok || k.Value != nil {
+		return false
+	}
+	return bo.X.Type().String() == "error"
 }
